@@ -1,6 +1,7 @@
 import Driver.Proto
 import Selene.Lua.Read
 import Selene.Scope.ManualTableClone
+import Selene.Scope.ManualTableCloneStateful
 namespace Driver.Clone
 open Selene Selene.Lua Selene.Scope Selene.Scope.ManualTableClone
 
@@ -26,6 +27,8 @@ def handleProg : Handler := fun input impl =>
         | _ => none).flatten
       let ms := run true σ lc chunk.block
       let off := run false σ lc chunk.block
+      -- the hook-by-hook visitor (sets kept as state) must say the same as the characterisation by statement spans
+      let selfOk := runStateful true σ lc chunk.block == ms
       match impl with
       | .atom "panic" => { agree := false, spec := some "[C11] manual_table_clone panicked", model := "" }
       | .list [.list withClone, .list without] =>
@@ -39,8 +42,8 @@ def handleProg : Handler := fun input impl =>
           (if ms.any (·.loopType == .ipairs) then ["ipairs-note"] else []) ++
           (if !comments.isEmpty then ["comment-before-loop"] else []) ++
           (if σ.panic.isSome then ["model-panic"] else [])
-        { agree := md == id && mdOff == idOff,
-          model := if md == id && mdOff == idOff then "" else s!"model {md.filter fun x => !id.contains x} impl {id.filter fun x => !md.contains x} without-table.clone model {mdOff} impl {idOff}",
+        { agree := md == id && mdOff == idOff && selfOk,
+          model := if !selfOk then "the stateful visitor model and the span characterisation disagree on this program" else if md == id && mdOff == idOff then "" else s!"model {md.filter fun x => !id.contains x} impl {id.filter fun x => !md.contains x} without-table.clone model {mdOff} impl {idOff}",
           tags }
       | _ => .malformed "clone impl"
     | none => .malformed "clone chunk"
